@@ -135,9 +135,28 @@ def check_pack_exclusion(ctx, rule="R1.8"):
               "one loop over self.__slots__")
     if loops:
         cfg = CFG(pk)
+        # locals computed from the explicit arguments alone (`excluded = excluded_fields or ()`) stand for them
+        derived = set(params)
+        grew = True
+        while grew:
+            grew = False
+            for st in walk_no_nested(pk):
+                if isinstance(st, ast.Assign) and len(st.targets) == 1 and isinstance(st.targets[0], ast.Name) and st.targets[0].id not in derived:
+                    names = {n.id for n in ast.walk(st.value) if isinstance(n, ast.Name)}
+                    if names & derived and not any(_is_configuration(n) for n in names) and not (names - derived - set(dir(__builtins__ if not isinstance(__builtins__, dict) else object))
+                                                                                                 - {"set", "frozenset", "tuple", "list"}):
+                        derived.add(st.targets[0].id)
+                        grew = True
+
+        def _names(text):
+            try:
+                return {n.id for n in ast.walk(ast.parse(text, mode="eval")) if isinstance(n, ast.Name)}
+            except SyntaxError:
+                return set()
+
         for c in [n for n in ast.walk(loops[0]) if isinstance(n, ast.Continue)]:
             facts = {t for t, p, _ in cfg.facts_at(cfg.node_of(c).id) if p}
-            ok = any(any(p == t or t.startswith(p + " ") or f" {p}" in t or t.startswith(p) for p in params) for t in facts)
+            ok = any(_names(t) & derived for t in facts)
             ctx.check(ok, rule, f"Record._pack:skip@{c.lineno - pk.lineno}", "a slot value is skipped under a condition that does not involve the "
                       "explicit arguments", c, "skip is conditional on an explicit argument")
 
